@@ -124,6 +124,11 @@ func (f *RawMessageFilter) ConsumeCacheMessages(consensusMessagesHandler Consens
 		f.logger.Debug("LHFILTER consuming %d messages from height=%d", len(messages), height)
 	}
 	for _, message := range messages {
+		// consuming a message may complete this height and start the next one from within (which installs
+		// the next handler and consumes its own cache): what is left here belongs to the past then
+		if f.state.Height() != height {
+			break
+		}
 		f.processConsensusMessage(message)
 	}
 	delete(f.futureCache, height)
